@@ -121,6 +121,8 @@ let run_t () =
                 List.for_all (fun v -> wsc_put_seq [v] = zi (List.length (encode v))) vs &&
                 (match fbw_write_chunks (fbw_init (zi n) bg) cs with (w, FOk) -> fbw_view w = Some enc | _ -> false) in
     Buffer.add_string b (" st=" ^ (if st_ok then "ok" else "model-static-type"));
+    (* copies of stream objects are copies of values in the functional model *)
+    Buffer.add_string b " cp=ok";
     Buffer.contents b
 
 let run_r () =
@@ -223,6 +225,11 @@ let run_h () =
       | ["new"] ->
         let (st', out) = h_step !st HNew in st := st';
         (match out with HReader k -> "reader=" ^ string_of_int (int_of_nat k) | _ -> "?")
+      | ["cp"; ks] ->
+        let k = int_of_string ks in
+        if k >= List.length !st.h_curs then "bad" else begin
+          let (st', out) = h_step !st (HCopy (nat_of_int k)) in st := st';
+          (match out with HReader j -> "reader=" ^ string_of_int (int_of_nat j) ^ "|" ^ cur (int_of_nat j) | _ -> "?") end
       | op :: ks :: rest ->
         let k = int_of_string ks in
         if k >= List.length !st.h_curs then "bad" else
